@@ -77,7 +77,7 @@ CHECKS["C13"] = dict(cat="model_checking", ref="DESIGN.md 4/C13",
     technique=TECH)
 CHECKS["C15"] = dict(cat="other", ref="DESIGN.md 4/C15",
     text="Thread schedules cannot be explored by this family of technique. The property is reduced to a lock-discipline premise that IS decided symbolically on the real code: under symbolic transport faults (incl. exceptions) every access to the shared transaction state (transport send/recv/connect/close, framer buffer, transaction-id counter, reply slots) happens while one and the same lock reachable from the client is owned, all accesses of one execute() call lie in ONE critical section of that lock (a section-counting proxy around the lock: not released and re-taken between two accesses, e.g. around the retry back-off), and no lock is owned after execute() returns or raises. Lock discipline + release on every exit implies serialisability of whole transactions (stated reduction); serial behaviour is C08/C13/C14.",
-    note="Not an exploration of interleavings: a race in code that bypasses the monitored accesses would be missed. If a reduction is not accepted as deciding a schedule property, C15 is not applicable to this technique family for that reason. Trusts CPython's RLock. Calls enter through BaseModbusClient.execute from a symbolic client.state; the connect() that method makes before the lock is the listed finding KF-connect-outside-transaction-lock (prelock-connect.tcp) and is excluded from lock.* by call site.",
+    note="Not an exploration of interleavings: a race in code that bypasses the monitored accesses would be missed. If a reduction is not accepted as deciding a schedule property, C15 is not applicable to this technique family for that reason. Trusts CPython's RLock. Environment model of contention (part of the claim): the first lock acquire that is allowed to give up (non-blocking or timed) gives up, blocking acquires succeed. Calls enter through BaseModbusClient.execute from a symbolic client.state; the connect() that method makes before the lock is the listed finding KF-connect-outside-transaction-lock (prelock-connect.tcp) and is excluded from lock.* by call site.",
     technique="lock-discipline premise checked by bounded symbolic execution (CrossHair + z3) of the real transaction code; schedule quantifier by a stated reduction")
 CHECKS["C16"] = dict(cat="model_checking", ref="DESIGN.md 4/C16",
     text="The Twisted ModbusClientProtocol is executed symbolically from a SYMBOLIC transaction-id counter (wrap at 0xFFFF included): three outstanding requests get distinct 16-bit ids, every arrival order of the replies fires each deferred exactly once with its own reply, an unsolicited reply (symbolic foreign id) and a duplicate change nothing; connection loss at every point fails exactly the pending deferreds with ConnectionException and later requests fail likewise; an inductive step from an arbitrary pending set (symbolic ids) decides id reuse; the serial FIFO variant matches replies in order.",
